@@ -24,7 +24,7 @@ RULE = (
     'space groups {P1,P-1,P2_1/c,C2/m,Pnma,Cmcm,I4/mmm,P4_2/mnm,R-3m,P6_3/mmc,Pm-3m,Fm-3m,F-43m,Fd-3m,Ia-3d,P2_13} '
     '(quick: 8 of them) with compatible lattices x site grid G^3 (quick G={0.03,0.5,0.97} + generic, thorough '
     'G={0.03,0.1,0.25,0.5,0.9,0.97}) x radii {0.5,1.0,0.45*w_min}; positions: for every symmetry image, 14 directions '
-    'x rho in {0.5,0.98,1.02} x radius, wrapped, + 4^3 background grid; supercells (1,1,1),(2,1,1),(2,2,2),(1,2,3); '
+    'x rho in {0.5,0.98,1.02} x radius, wrapped, + 4^3 background grid; a second different site with the same label on the same analyzer; supercells (1,1,1),(2,1,1),(2,2,2),(1,2,3) (analyze_trajectory called twice on the same object, trajectory unchanged); '
     'evaluation = one (operation, position) pair judged; distinct = distinct (group, site, radius, count) outcomes'
 )
 LEVEL_TEXT = (
